@@ -1,6 +1,8 @@
 """C06 — every owned value is destroyed exactly once, with nothing leaked.
  '106 | op ; op ..'  lifecycle history over a pool of opaque objects sharing one reference-counted context (see harness/prog/src/life.rs for the op codes);
      per op: result row and [context count above baseline; live instances; ids whose destructor ran].  The Coq model coq/model/Life.v predicts every row.
+ '206 | 0'  compile-time probe: `trait_obj!(&mut x as Fin)` followed by the by-value call `fin(self)` must be REJECTED by the compiler (only owning instances
+     implement `IntoInner`); if it compiles it is run, and the report carries what it did to the borrowed value.
  '108 ..' casts (failed casts destroy the group; successful ones keep the instance).
  '21 <elem> | op ; ..'  the runtime boxes themselves: CBox<T> (from a value, a Box, a (value, NoContext) pair) and CSliceBox<T> (from Box<[T]>, empty ones and
      zero-sized elements included): read, write, into_opaque, into_inner, drop; per op the result row and the values whose destructor ran (coq/model/Boxed.v)."""
@@ -29,15 +31,26 @@ def build_harness(tier):
 
 
 def run_impl(lines):
-    return G.run_impl(lines)
+    # '206 |': the compile-time probe (a by-reference object must reject by-value calls); everything else goes to the harnesses
+    rest = [l for l in lines if not l.startswith("206 ")]
+    out = iter(G.run_impl(rest)) if rest else iter([])
+    probe = None
+    res = []
+    for l in lines:
+        if l.startswith("206 "):
+            probe = probe or G.byref_consume_probe()
+            res.append(probe)
+        else:
+            res.append(next(out))
+    return res
 
 
 def model_line(l):
-    return "0 |" if l.startswith("101 ") else G.life_model_line(l)
+    return "0 |" if l.startswith(("101 ", "206 ")) else G.life_model_line(l)
 
 
 def compare(l, impl_rows, model_rows):
-    if l.startswith("101 "):
+    if l.startswith(("101 ", "206 ")):
         return True          # behavioural direct-vs-opaque runs: decided by the implementation-side monitor alone
     return impl_rows == model_rows
 
@@ -56,4 +69,5 @@ def gen_cases(rng, tier):
     c, d3 = G.box_cases(rng.fork("box"), tier)
     d1.update(d2)
     d1.update(d3)
-    return a + b + c, d1
+    d1["by_reference_consuming_probe"] = 1
+    return ["206 | 0"] + a + b + c, d1
